@@ -508,23 +508,7 @@ def c13(res, tier, seed):
     qs.append(Query("unlike particles: energy(a,b) == energy(b,a) (within 1e-9)", physical + pc_s + pc_ba + [T.bor(T.fcmp("flt", 1e-9, diff), T.fcmp("flt", diff, -1e-9))], timeout=120,
                     meta=dict(fn="LJ2::energy", expected="finding"), witness=physical))
     # molecule energy = sum over particle pairs
-    def sym_ljshape(p, n):
-        return Agg("struct:LJShape2", [Agg("str", ["m"]), Agg("vec", [sym_lj("%s%d" % (p, i), "sym") for i in range(n)])])
-    for n in ((3,) if tier == "quick" else (1, 2, 3)):
-        ma, mb = sym_ljshape("a", n), sym_ljshape("b", n)
-        em, pcm, _ = E.run(ex, f_sh, [E.ByRef(ma), E.ByRef(mb)])
-        parts = []
-        pcs = []
-        for i in range(n):
-            for j in range(n):
-                e1, p1, _ = E.run(ex, f_en, [E.ByRef(ma.fields[1].fields[i]), E.ByRef(mb.fields[1].fields[j])])
-                parts.append(e1)
-                pcs += p1
-        # abstract each pair energy by a fresh real so the check is about the *sum structure*
-        tot = parts[0]
-        for p_ in parts[1:]:
-            tot = T.fbin("fadd", tot, p_)
-        qs.append(Query("molecule(%d): energy == sum over the %d particle pairs" % (n, n * n), pcm + pcs + [T.bnot(T.fcmp("feq", em, tot))], timeout=120, meta=dict(fn="LJShape2::energy")))
+    qs += molecule_sum_queries(ex, f_sh, f_en, (3,) if tier == "quick" else (1, 2, 3))
 
     val = validate_lj(ex, e_s, a_s, b_s)
     done = run_queries(qs)
@@ -534,6 +518,8 @@ def c13(res, tier, seed):
         def ljv(p):
             cut = m.get(p + "cut") if m.get(p + "hascut", False) else None
             return [m.get(p + "x", 0.0), m.get(p + "y", 0.0), m.get(p + "sigma", 1.0), m.get(p + "eps", 1.0), cut]
+        if q.name.startswith("molecule(") or q.meta.get("kind") == "trimer-pair":
+            return replay_molecule_sum(q)
         A, Bv = ljv("a"), ljv("b")
         if q.name.startswith("cut:") and m.get("cut") is not None:
             A[4] = Bv[4] = m["cut"]
@@ -578,6 +564,141 @@ def c13(res, tier, seed):
         for o in res.obligations:
             if o["status"] == "discharged":
                 o["status"] = "undischarged"
+
+
+def fold_constant_sqrt(terms_):
+    """sqrt of an expression that is constant as a polynomial (symbolic parts cancel, e.g. distances inside a rigidly
+    moved molecule) -> its value.  Exact-real identity; keeps such terms out of the solver."""
+    mapping = {}
+    seen = set()
+    pm = {}
+    stack = [z for z in terms_ if T.is_t(z)]
+    while stack:
+        z = stack.pop()
+        if z.id in seen:
+            continue
+        seen.add(z.id)
+        if z.op == "fsqrt" and T.is_t(z.args[0]):
+            try:
+                p_ = polyq.to_poly(z.args[0], {}, pm)
+                if all(m_ == () for m_ in p_) and float(p_.get((), 0)) >= 0:
+                    mapping[z.id] = math.sqrt(float(p_.get((), 0)))
+                    continue
+            except polyq.NotPoly:
+                pass
+        stack.extend(w for w in z.args if T.is_t(w))
+    if not mapping:
+        return list(terms_)
+    memo = {}
+    return [T.subst(z, mapping, memo) if T.is_t(z) else z for z in terms_]
+
+
+def molecule_sum_queries(ex, f_sh, f_en, ns):
+    """LJShape2::energy(a, b) == sum over all particle pairs of LJ2::energy, for molecules of symbolic particles.
+    The robust variant asks for a disagreement of more than 1e-6 between well separated, physical particles."""
+    out = []
+
+    def sym_ljshape(p, n):
+        return Agg("struct:LJShape2", [Agg("str", ["m"]), Agg("vec", [sym_lj("%s%d" % (p, i), "sym") for i in range(n)])])
+    for n in ns:
+        ma, mb = sym_ljshape("a", n), sym_ljshape("b", n)
+        em, pcm, _ = E.run(ex, f_sh, [E.ByRef(ma), E.ByRef(mb)])
+        parts = []
+        pcs = []
+        for i in range(n):
+            for j in range(n):
+                e1, p1, _ = E.run(ex, f_en, [E.ByRef(ma.fields[1].fields[i]), E.ByRef(mb.fields[1].fields[j])])
+                parts.append(e1)
+                pcs += p1
+        tot = parts[0]
+        for p_ in parts[1:]:
+            tot = T.fbin("fadd", tot, p_)
+        qq = Query("molecule(%d): energy == sum over the %d particle pairs" % (n, n * n), pcm + pcs + [T.bnot(T.fcmp("feq", em, tot))], timeout=120, meta=dict(fn="LJShape2::energy", n=n))
+        rob = []
+        for p in ("a", "b"):
+            for i in range(n):
+                pr = "%s%d" % (p, i)
+                rob += [T.fcmp("fle", -8.0, F(pr + "x")), T.fcmp("fle", F(pr + "x"), 8.0), T.fcmp("fle", -8.0, F(pr + "y")), T.fcmp("fle", F(pr + "y"), 8.0),
+                        T.fcmp("fle", 0.5, F(pr + "sigma")), T.fcmp("fle", F(pr + "sigma"), 2.0), T.fcmp("feq", F(pr + "eps"), 1.0), T.var(pr + "hascut", "B"), T.fcmp("feq", F(pr + "cut"), 3.5)]
+        for i in range(n):
+            for j in range(n):
+                dx_, dy_ = T.fbin("fsub", F("a%dx" % i), F("b%dx" % j)), T.fbin("fsub", F("a%dy" % i), F("b%dy" % j))
+                rob.append(T.fcmp("fle", 1.0, T.fbin("fadd", T.fbin("fmul", dx_, dx_), T.fbin("fmul", dy_, dy_))))
+        dd = T.fbin("fsub", em, tot)
+        rob.append(T.bor(T.fcmp("flt", 1e-6, dd), T.fcmp("flt", dd, -1e-6)))
+        qq.robust = rob
+        out.append(qq)
+    # the real trimer against a rotated, translated copy of itself (rotation from a grid, offset symbolic), in
+    # configurations where exactly one particle pair is inside the cutoff: isolates each term of the sum, and
+    # keeps the query quadratic in two variables
+    data = S.real_data()
+    items = data["shapes"]["ljtrimer:0.637556,120,1"]["items"]
+    mk = lambda x_, y_, it_: Agg("struct:LJ2", [S.point(x_, y_), unjf(it_[2]), unjf(it_[3]), mk_enum("Option", "Some", [unjf(it_[4])])])
+    ox, oy = F("mox"), F("moy")
+    ma = Agg("struct:LJShape2", [Agg("str", ["m"]), Agg("vec", [mk(unjf(it_[0]), unjf(it_[1]), it_) for it_ in items])])
+    for kphi in range(12):
+        phi = kphi * math.pi / 6 + 0.05
+        cph, sph = math.cos(phi), math.sin(phi)
+        posb = [(T.fbin("fadd", cph * unjf(it_[0]) - sph * unjf(it_[1]), ox), T.fbin("fadd", sph * unjf(it_[0]) + cph * unjf(it_[1]), oy)) for it_ in items]
+        mb = Agg("struct:LJShape2", [Agg("str", ["m"]), Agg("vec", [mk(px_, py_, it_) for (px_, py_), it_ in zip(posb, items)])])
+        em, pcm, _ = E.run(ex, f_sh, [E.ByRef(ma), E.ByRef(mb)])
+        parts, pcs, r2s = [], [], {}
+        for i in range(3):
+            for j in range(3):
+                e1, p1, _ = E.run(ex, f_en, [E.ByRef(ma.fields[1].fields[i]), E.ByRef(mb.fields[1].fields[j])])
+                parts.append(e1)
+                pcs += p1
+                dx_, dy_ = T.fbin("fsub", unjf(items[i][0]), posb[j][0]), T.fbin("fsub", unjf(items[i][1]), posb[j][1])
+                r2s[(i, j)] = T.fbin("fadd", T.fbin("fmul", dx_, dx_), T.fbin("fmul", dy_, dy_))
+        tot = parts[0]
+        for p_ in parts[1:]:
+            tot = T.fbin("fadd", tot, p_)
+        differ = T.bnot(T.fcmp("feq", em, tot))
+        for (i, j), r2 in r2s.items():
+            only = [T.fcmp("flt", r2, 3.4 ** 2), T.fcmp("fle", 1.5 ** 2, r2)] + [T.fcmp("fle", 3.6 ** 2, r2b) for key_, r2b in r2s.items() if key_ != (i, j)]
+            out.append(Query("trimer pair, rotation %.3f, only particles %d,%d within the cutoff: molecule energy == that pair's energy" % (phi, i, j), fold_constant_sqrt(pcm + pcs + only + [differ]), timeout=30,
+                             meta=dict(fn="LJShape2::energy", kind="trimer-pair", phi=phi, pair=(i, j))))
+            if differ is not False:
+                # if undecided: look for a configuration on a path where the code returns a constant although the pair interacts
+                def const_paths(v_):
+                    if not T.is_t(v_):
+                        return True
+                    if v_.op == "ite":
+                        return T.bor(T.band(v_.args[0], const_paths(v_.args[1])), T.band(T.bnot(v_.args[0]), const_paths(v_.args[2])))
+                    return False
+                out[-1].alt_search = fold_constant_sqrt(pcm + pcs + only + [const_paths(em)])
+    return out
+
+
+def replay_molecule_sum(q):
+    m = q.model
+    n = q.meta.get("n", 3)
+    if q.meta.get("kind") == "trimer-pair":
+        items = S.real_data()["shapes"]["ljtrimer:0.637556,120,1"]["items"]
+        ph = q.meta["phi"]
+        oxv, oyv = m.get("mox"), m.get("moy")
+        if oxv is None or oyv is None:
+            return ("spurious", "model not numeric")
+        A = [[jf(unjf(v_)) for v_ in it_] for it_ in items]
+        Bv = [[jf(math.cos(ph) * unjf(it_[0]) - math.sin(ph) * unjf(it_[1]) + oxv), jf(math.sin(ph) * unjf(it_[0]) + math.cos(ph) * unjf(it_[1]) + oyv)] + [jf(unjf(v_)) for v_ in it_[2:]] for it_ in items]
+        outs = [native_eval([dict(fn="LJShape2::energy", args=[A, Bv])], prof)[0] for prof in ("debug", "release")]
+        if all("energy" in o and abs(unjf(o["energy"]) - unjf(o["pair_sum"])) > 1e-9 * max(1.0, abs(unjf(o["pair_sum"]))) for o in outs):
+            return ("violated", "LJShape2::energy of the trimer and its copy rotated by %.4g, moved by (%.9g, %.9g) is %.9g but the sum over the 9 particle pairs is %.9g" % (ph, oxv, oyv, unjf(outs[0]["energy"]), unjf(outs[0]["pair_sum"])),
+                    dict(kind="eval", fn="LJShape2::energy", a=A, b=Bv, result=outs[0]), dict(clause="molecule-sum"))
+        return ("spurious", "molecule energy equals the pair sum natively")
+
+    def part(pr):
+        cut = m.get(pr + "cut") if m.get(pr + "hascut", False) else None
+        return [jf(m.get(pr + "x") or 0.0), jf(m.get(pr + "y") or 0.0), jf(m.get(pr + "sigma") if m.get(pr + "sigma") is not None else 1.0), jf(m.get(pr + "eps") if m.get(pr + "eps") is not None else 1.0), None if cut is None else jf(cut)]
+    A = [part("a%d" % i) for i in range(n)]
+    Bv = [part("b%d" % i) for i in range(n)]
+    outs = [native_eval([dict(fn="LJShape2::energy", args=[A, Bv])], prof)[0] for prof in ("debug", "release")]
+    if any("energy" not in o for o in outs):
+        return ("spurious", "native call failed")
+    if all(abs(unjf(o["energy"]) - unjf(o["pair_sum"])) > 1e-9 * max(1.0, abs(unjf(o["pair_sum"]))) for o in outs):
+        return ("violated", "LJShape2::energy = %.9g but the sum over the %d particle pairs is %.9g (a=%s, b=%s)" % (unjf(outs[0]["energy"]), n * n, unjf(outs[0]["pair_sum"]), A, Bv),
+                dict(kind="eval", fn="LJShape2::energy", a=A, b=Bv, result=outs[0]), dict(clause="molecule-sum"))
+    return ("spurious", "molecule energy equals the pair sum natively")
 
 
 def copy_lj(v, x, y):
@@ -1497,9 +1618,15 @@ def c03(res, tier, seed):
         sym = []  # E is a pair energy: symmetric in its two placements (stated as a hypothesis where needed)
         qs.append(Query("[%s] score == -(1/N) * (sum over unordered in-cell pairs + 1/2 sum over ordered (copy, image) pairs within 3 shells), N=%d copies, %d pair terms" % (g, N, npairs),
                         pc + [T.bnot(T.fcmp("feq", code, ref))], timeout=120, meta=dict(group=g, fn="PotentialState::score (S opaque)", pair_terms=npairs)))
+    # the molecule energy the score sums is itself the sum over particle pairs (shared with C13): with it the score
+    # is the lattice energy per molecule in terms of the pair potential, not of an opaque molecule energy
+    ex13 = E.load()
+    qs += molecule_sum_queries(ex13, E.find_fn(ex13, r"^lj_shape::<impl at [^>]*>::energy$"), E.find_fn(ex13, r"^lj2::.*::energy$"), (3,))
     done = run_queries(qs)
 
     def replay(qq):
+        if qq.name.startswith("molecule(") or qq.meta.get("kind") == "trimer-pair":
+            return replay_molecule_sum(qq)
         g = qq.meta.get("group", "p2")
         # native: real score of a concrete trimer state vs direct lattice sum with the same shell range
         sh = data["shapes"]["ljtrimer:0.637556,120,1"]
@@ -1589,8 +1716,19 @@ def c02(res, tier, seed):
     f_fr = E.find_fn(ex, r"^line_shape::.*::from_radial$")
     f_la = E.find_fn(ex, r"^line_shape::<impl at [^>]*>::area$")
     cases = [(3, False), (4, True), (5, True), (6, True)] if tier == "quick" else [(3, False), (4, False), (4, True), (5, True), (6, True), (8, True), (5, False)]
+    # one-parameter families of irregular polygons (one vertex moves, the others fixed): univariate queries the
+    # solver decides at once even when the area formula contains square roots
+    cases += [(3, (None, 1.0, 1.0)), (3, (None, 2.0, 1.0)), (4, (None, 1.0, 1.0, 1.0)), (4, (None, 2.0, 1.0, 2.0)), (4, (None, 1.0, 0.5, 1.0)), (5, (None, 1.0, 2.0, 1.0, 1.0))]
     for n, regular in cases:
-        radii = [F("r")] * n if regular else [F("r%d" % i) for i in range(n)]
+        if isinstance(regular, tuple):
+            radii = [F("r") if v_ is None else v_ for v_ in regular]
+            fam_name = "radii %s with r symbolic" % (["r" if v_ is None else v_ for v_ in regular],)
+            pattern = list(regular)
+            regular = False
+        else:
+            fam_name = None
+            pattern = None
+            radii = [F("r")] * n if regular else [F("r%d" % i) for i in range(n)]
         rv, pc, _ = E.run(ex, f_fr, [Agg("str", ["P"]), Agg("vec", radii)])
         okv = [f_[0] for c_, vn, f_ in rv.alts if vn == "Ok"]
         if not okv:
@@ -1607,10 +1745,11 @@ def c02(res, tier, seed):
         shoelace = T.fbin("fmul", -0.5, sh)
         box = []
         for r in radii:
-            box += [T.fcmp("fle", 0.5, r), T.fcmp("fle", r, 2.0)]
+            if T.is_t(r):
+                box += [T.fcmp("fle", 0.5, r), T.fcmp("fle", r, 2.0)]
         d = T.fbin("fsub", ar, shoelace)
-        qs.append(Query("polygon(%d, %s): LineShape::area of from_radial equals the polygon's shoelace area within 1e-9 (radii in [1/2,2])" % (n, "one symbolic radius" if regular else "independent symbolic radii"),
-                        box + pc + pc2 + [T.bor(T.fcmp("flt", 1e-9, d), T.fcmp("flt", d, -1e-9))], timeout=120 if tier == "quick" else 900, meta=dict(n=n, fn="LineShape::from_radial + area"), witness=box))
+        qs.append(Query("polygon(%d, %s): LineShape::area of from_radial equals the polygon's shoelace area within 1e-9 (radii in [1/2,2])" % (n, fam_name or ("one symbolic radius" if regular else "independent symbolic radii")),
+                        box + pc + pc2 + [T.bor(T.fcmp("flt", 1e-9, d), T.fcmp("flt", d, -1e-9))], timeout=120 if tier == "quick" else 900, meta=dict(n=n, fn="LineShape::from_radial + area", pattern=pattern), witness=box))
     # discs
     f_ma = E.find_fn(ex, r"^molecular_shape2::<impl at [^>]*>::area$")
     f_tr = E.find_fn(ex, r"^molecular_shape2::.*::from_trimer$")
@@ -1697,6 +1836,8 @@ def c02(res, tier, seed):
             n = qq.meta["n"]
             radii = [m.get("r%d" % i_) if m.get("r%d" % i_) is not None else m.get("r", 1.0) for i_ in range(n)]
             radii = [1.0 if r_ is None else r_ for r_ in radii]
+            if qq.meta.get("pattern"):
+                radii = [m.get("r", 1.0) if v_ is None else v_ for v_ in qq.meta["pattern"]]
             o = native_eval([dict(fn="LineShape::radial_area", args=[radii])])[0]
             if "area" not in o:
                 return ("spurious", "from_radial failed natively")
@@ -1817,7 +1958,30 @@ def c08(res, tier, seed):
     res.assumptions += ["chaining: every stage re-derives [min, current value] from the current value, so ranges only shrink (follows from the handle obligations)", "NaN proposals (non-finite inputs) are outside the property"]
 
 
+def replay_cell_ranges(q):
+    """native: the bounds of the cell's handles, probed through set_value's clamping, against the declared ranges"""
+    fam = q.meta.get("family")
+    m = q.model
+    a_ = m.get("a") if m.get("a") is not None and 0.01 < m.get("a") <= 50 else 2.0
+    q_ = m.get("q") if m.get("q") is not None and 0.1 < m.get("q") < 1 else 0.6
+    t_ = m.get("t") if m.get("t") is not None and math.pi / 6 < m.get("t") < math.pi / 2 else 1.2
+    if fam != "Monoclinic":
+        t_ = math.pi / 2
+    cellj = dict(length=a_, ratio=q_, angle=t_, family=fam)
+    o = native_eval([dict(fn="Cell2::basis_ranges", args=[cellj])])[0]
+    if not isinstance(o, list):
+        return ("spurious", "native call failed: %s" % (o,))
+    exp = {"Monoclinic": [(a_, 0.01, a_), (q_, 0.1, q_), (t_, math.pi / 6, math.pi / 2)], "Orthorhombic": [(a_, 0.01, a_), (q_, 0.1, q_)]}.get(fam, [(a_, 0.01, a_)])
+    got = [tuple(unjf(v_) for v_ in row) for row in o]
+    if len(got) != len(exp) or any(abs(g_ - e_) > 1e-12 for gr, er in zip(got, exp) for g_, e_ in zip(gr, er)):
+        return ("violated", "Cell2::get_degrees_of_freedom of a %s cell (length %g, ratio %g, angle %g) gives (value, min, max) = %s, declared ranges are %s" % (fam, a_, q_, t_, got, exp),
+                dict(kind="eval", fn="Cell2::basis_ranges", cell=cellj, result=o), dict(clause="cell-ranges", family=fam))
+    return ("spurious", "native ranges agree with the declared ones")
+
+
 def replay_generic_fact(q):
+    if "range is [" in q.name and q.meta.get("family"):
+        return replay_cell_ranges(q)
     if q.status == "sat" and not q.model:
         return ("violated", "%s: %s" % (q.name, q.meta), dict(kind="fact", fact=q.name, meta=q.meta), dict(clause="structure", what=q.name.split(":")[0][:60]))
     return None
